@@ -33,7 +33,7 @@ const THOROUGH: u32 = 100000;
 fn sub(name: &'static str, dom: Dom, check: fn(&Case, &mut Obs)) -> Box<dyn SubCheck> {
     prop_sub(name, QUICK, THOROUGH, move |t: Tier| case_strategy(t, dom), check)
         .chunks(4)
-        .require(&["batch_multi_row", "batch_single_row", "batch_empty", "perm_nontrivial", "layout_owned_strided", "poisoned_neighbour", "poison_nan"])
+        .require(&["batch_multi_row", "batch_single_row", "batch_empty", "perm_nontrivial", "layout_owned_strided", "poisoned_neighbour", "poison_nan", "big_batch", "big_batch_over_1024_not_multiple"])
 }
 
 pub fn property() -> Property {
@@ -60,6 +60,7 @@ pub fn property() -> Property {
             "poisoned neighbour: in every batch of m >= 2 rows one generated non-last row is replaced by a row holding NaN / +inf / -inf / +1e300 / -1e300 in one or all features; every OTHER row must keep the prediction it has alone (same exactness / tolerance as batch-vs-single); the poisoned row itself is not judged; if predicting the poisoned row alone panics, a panic of the poisoned batch is accepted (class poisoned_row_panics_alone), otherwise the batch must not panic".into(),
             "single-sample entry points (Svm<bool> incl. one-class, Svm<Pr>, Svm<f64> regression: Predict on a 1-D array; KMeans: Predict / PredictInplace on a 1-D array) are called with an owned Array1, a contiguous, a strided and a reversed ArrayView1 of every query row and must equal the one-row batch bit for bit (they call the same weighted_sum / closest_centroid, no tolerance)".into(),
             "stratum svm_boundary: point-symmetric integer training sets (p_i true, -p_i false) for C-SVC / one-class, linear and Gaussian kernel; queries at the origin, orthogonal to w, at training points, mirrored pairs; decision value exactly 0 is reached either because the fit returns rho == 0.0 or by assigning the public field rho := weighted_sum(first query row); classes decision_value_exactly_zero and boundary_rho_exactly_zero_from_fit are required".into(),
+            "big batch: one case in 40 per predictor family (quick about 250, thorough about 2500) additionally predicts a batch of n rows, n drawn from 257..=300, 1000..=1100, 1025..=1500, 2049..=2100, 4097..=4200 or B-1/B/B+1/2B-1/2B/2B+1 for B in {256,512,1024,2048,4096}, built by tiling the case's query rows in a seed-derived pseudo-random (non-periodic) order, once in standard layout and once shuffled in Fortran layout; every position must reproduce the prediction of that row alone (same exactness / tolerance as batch-vs-single resp. cross-layout)".into(),
             "strata platt_extreme / svm_pr_extreme: A*f+B is driven onto ±{0,1e-3,1,10,50,88,89,100,700,1e4,1e30} (platt_predict directly with generated A of both signs and B; a fitted Platt around a mock inner model; Svm<Pr> with a linear kernel and queries scaled by ±1e3..1e6, 1e30): finite, in [0,1], within 3e-6 of the f64 sigmoid, monotone, no panic".into(),
             "outside those two strata queries stay finite and within a few standard deviations of the training data; NaN/inf inputs and feature-count mismatches (documented assertion panics) are not generated".into(),
             "FastICA (owned Array2 only, not in the statement's list) is not covered; sparse-kernel SVMs are not covered".into(),
@@ -71,7 +72,7 @@ pub fn property() -> Property {
             sub("svm_pr_extreme", DOM_SVM, models_svm::check_svm_pr_extreme),
             prop_sub("svm_boundary", QUICK, THOROUGH, move |t: Tier| case_strategy(t, DOM_SVM), models_svm::check_svm_boundary)
                 .chunks(4)
-                .require(&["batch_multi_row", "batch_empty", "decision_value_exactly_zero", "decision_value_exactly_zero_with_fitted_rho", "boundary_rho_exactly_zero_from_fit", "single_sample_form_checked", "poisoned_neighbour"]),
+                .require(&["batch_multi_row", "batch_empty", "decision_value_exactly_zero", "decision_value_exactly_zero_with_fitted_rho", "boundary_rho_exactly_zero_from_fit", "single_sample_form_checked", "poisoned_neighbour", "big_batch"]),
             sub("platt_extreme", DOM_SVM, models_wrap::check_platt_extreme),
             sub("multiclass", DOM_SVM, models_wrap::check_multiclass),
             sub("multilogistic", DOM_STD, models_classif::check_multilogistic),
